@@ -45,6 +45,39 @@ func paramRooted(addr ssa.Value) (root ssa.Value, crossed bool) {
 			return v, crossed
 		case *ssa.Slice:
 			v = x.X
+		case *ssa.Field:
+			v = x.X // a field of a struct value (e.g. of a value receiver)
+		case *ssa.Alloc:
+			// a local assigned once (e.g. because a closure captures it): look through to what it holds
+			if refs := x.Referrers(); refs != nil && crossed {
+				var sv ssa.Value
+				n := 0
+				for _, r := range *refs {
+					if st, ok := r.(*ssa.Store); ok && st.Addr == ssa.Value(x) {
+						sv = st.Val
+						n++
+					}
+				}
+				if n == 1 {
+					if _, isParam := sv.(*ssa.Parameter); !isParam {
+						v = sv
+						continue
+					}
+				}
+			}
+			return v, crossed
+		case *ssa.Call:
+			// a generated getter (m.GetX() returns m.X): the result shares memory with the receiver
+			callee := x.Call.StaticCallee()
+			if callee != nil && strings.HasPrefix(callee.Name(), "Get") && len(x.Call.Args) == 1 && callee.Signature.Recv() != nil {
+				switch x.Type().Underlying().(type) {
+				case *types.Slice, *types.Pointer, *types.Map:
+					crossed = true
+					v = x.Call.Args[0]
+					continue
+				}
+			}
+			return v, crossed
 		case *ssa.ChangeType:
 			v = x.X
 		case *ssa.Convert:
